@@ -117,7 +117,8 @@ func vh_C04_check() {
 	want := vxHMACSHA1(key, refIntegritySpan(raw, off))
 	// constructive cases (so that every counterexample replays with the real HMAC)
 	good := false
-	switch vxChoose(4) {
+	which := vxChoose(4)
+	switch which {
 	case 0: // the correct MAC, 20 bytes
 		if len(mac) != 20 {
 			return
@@ -152,7 +153,7 @@ func vh_C04_check() {
 		wantOther := vxHMACSHA1(key, other)
 		if len(mac) == 20 {
 			vxAssume(e != off || int(l) != off+4) // a different span ...
-			vxAssume(wantOther != want)          // ... has a different HMAC (cryptographic idealisation, stated)
+			vxAssume(wantOther != want)           // ... has a different HMAC (cryptographic idealisation, stated)
 		}
 		copy(mac, wantOther[:])
 		vxReach("mac-over-other-span")
@@ -162,7 +163,14 @@ func vh_C04_check() {
 	if good {
 		vxAssert(err == nil, "the first MESSAGE-INTEGRITY equal to HMAC over the RFC span verifies, whatever follows it")
 	} else {
-		vxAssert(err != nil, "a MAC of wrong length or content does not verify")
+		switch which {
+		case 1:
+			vxAssert(err != nil, "a MAC whose length is not 20 does not verify")
+		case 2:
+			vxAssert(err != nil, "a MAC with a wrong byte does not verify")
+		default:
+			vxAssert(err != nil, "a MAC computed over any other prefix / length field does not verify")
+		}
 	}
 	vxUnchanged(m, snap, "Check")
 }
